@@ -31,6 +31,11 @@ var c13PosNames = []string{"merge-first", "merge-middle", "merge-last"}
 // scalar, so that explode also has to resolve values that override merged keys.
 var c13ExplicitAlias bool
 
+// c13E1Val: the first explicit value of H. Normally the number 5; in the "key-like" variant a one-byte string drawn
+// from the key alphabet, so that a *value* may spell the name of a merged key.
+var c13E1Val = "5"
+var c13E1Tag = "!!int"
+
 func c13Build(ka1, ka2, kb1, kb2, e1, e2 string, mergeKind, pos int) *yaml.Node {
 	a := vMap(vStr(ka1), vInt("1"), vStr(ka2), vInt("2"))
 	a.Anchor = "a"
@@ -57,7 +62,7 @@ func c13Build(ka1, ka2, kb1, kb2, e1, e2 string, mergeKind, pos int) *yaml.Node 
 	if c13ExplicitAlias {
 		e2val = &yaml.Node{Kind: yaml.AliasNode, Value: "x", Alias: xAnch}
 	}
-	entries := [][2]*yaml.Node{{vStr(e1), vInt("5")}, {vStr(e2), e2val}}
+	entries := [][2]*yaml.Node{{vStr(e1), vS(c13E1Tag, c13E1Val)}, {vStr(e2), e2val}}
 	for i := 0; i <= 2; i++ {
 		if i == pos {
 			h.Content = append(h.Content, mk, x)
@@ -84,7 +89,7 @@ func c13Ref(q, ka1, ka2, kb1, kb2, e1, e2 string, mergeKind int) (string, string
 		}
 		return "", false
 	}
-	if v, ok := pick(e1, "5", e2, "6"); ok {
+	if v, ok := pick(e1, c13E1Val, e2, "6"); ok {
 		// explicit keys win wherever the merge key is placed
 		_, inA := pick(ka1, "1", ka2, "2")
 		_, inB := pick(kb1, "3", kb2, "4")
@@ -194,8 +199,18 @@ func VerifC13Resolve() {
 	if c13ExplicitAlias {
 		label += " explicit-alias"
 	}
+	c13E1Val, c13E1Tag = "5", "!!int"
+	if verifChoice("explicitValueIsKeyLike", 2) == 1 {
+		c13E1Val, c13E1Tag = verifStrN("ev", 1, "ad"), "!!str"
+		want, src = c13Ref(q, ka1, ka2, kb1, kb2, e1, e2, mergeKind)
+		label = c13RouteNames[route] + " " + c13MergeNames[mergeKind] + " " + c13PosNames[pos] + " key=" + src + " value-spells-a-key"
+		if c13ExplicitAlias {
+			label += " explicit-alias"
+		}
+	}
 	got, ok := c13Read(route, c13Build(ka1, ka2, kb1, kb2, e1, e2, mergeKind, pos), q)
 	c13ExplicitAlias = false
+	c13E1Val, c13E1Tag = "5", "!!int"
 	verifAssert(ok, "C13/read-error "+label)
 	if !ok {
 		return
